@@ -1223,6 +1223,23 @@ static int state_sync_process(struct snapraid_state* state, struct snapraid_pari
 				/* we are also clearing any previous bad and rehash flag */
 				info_set(&state->infoarr, blockcur, info_make(now, 0, 0, 1));
 			}
+		} else {
+			/* the stripe is skipped, and the parity still contains the old data, */
+			/* but the CHG blocks already read have now the hash of the new data. */
+			/* A CHG hash is instead expected to be the hash of the data in the parity, */
+			/* and check/fix use it to recognize the old data recovered from the parity. */
+			/* Restore the unknown hash state that all the CHG blocks have in sync. */
+			for (j = 0; j < diskmax; ++j) {
+				struct snapraid_block* block;
+
+				if (!handle[j].disk)
+					continue;
+
+				block = fs_par2block_find(handle[j].disk, blockcur);
+
+				if (block_state_get(block) == BLOCK_STATE_CHG)
+					hash_invalid_set(block->hash);
+			}
 		}
 
 		/* if a silent (even if corrected) or input/output error was found */
